@@ -93,7 +93,7 @@ Allowed(state) == AllowedRfc(Rfc(state))
    Certificate with an empty list.  The drivers name messages; TLC derives the
    record from the name. *)
 M(t, ok, psk, empty) == [type |-> t, ok |-> ok, psk |-> psk, empty |-> empty, variant |-> ""]
-Names == {"CH", "CHpsk", "CHpskbad", "SH", "SHpsk", "NST", "EOED", "EE", "EEearly", "CERT",
+Names == {"CH", "CHpsk", "CHpskbad", "SH", "SHpsk", "SHpskbad", "NST", "EOED", "EE", "EEearly", "CERT",
           "CERTempty", "CR", "CRctx", "CV", "CVbad", "FIN", "FINbad", "KU", "CCERT", "MH",
           "UNKNOWN"}
 Msg(n) ==
@@ -102,6 +102,9 @@ Msg(n) ==
     [] n = "CHpskbad"  -> M("CLIENT_HELLO", FALSE, TRUE, FALSE)
     [] n = "SH"        -> M("SERVER_HELLO", TRUE, FALSE, FALSE)
     [] n = "SHpsk"     -> M("SERVER_HELLO", TRUE, TRUE, FALSE)
+    \* a ServerHello that selects the offered PSK but comes from a party that cannot hold it (another cipher suite than the
+    \* ticket's, keys derived without the PSK): ok = FALSE, it authenticates nothing
+    [] n = "SHpskbad"  -> M("SERVER_HELLO", FALSE, TRUE, FALSE)
     [] n = "NST"       -> M("NEW_SESSION_TICKET", TRUE, FALSE, FALSE)
     [] n = "EOED"      -> M("END_OF_EARLY_DATA", TRUE, FALSE, FALSE)
     [] n = "EE"        -> M("ENCRYPTED_EXTENSIONS", TRUE, FALSE, FALSE)
@@ -122,7 +125,7 @@ Msg(n) ==
     [] n = "MH"        -> M("MESSAGE_HASH", TRUE, FALSE, FALSE)
     [] n = "UNKNOWN"   -> M("UNKNOWN", TRUE, FALSE, FALSE)
 ClientAlphabet == Names \ {"CHpsk", "CHpskbad"}       \* what a client can be sent
-ServerAlphabet == Names \ {"SHpsk"}                   \* what a server can be sent
+ServerAlphabet == Names \ {"SHpsk", "SHpskbad"}                   \* what a server can be sent
 Alphabet(role) == IF role = "client" THEN ClientAlphabet ELSE ServerAlphabet
 
 (* Traffic keys: <<direction, epoch>> as passed to update_traffic_key_cb. *)
@@ -154,7 +157,7 @@ StartF(s) ==
 
 \* content conditions under which an admissible message may be accepted at all
 Valid(s, m) ==
-  CASE m.type = "SERVER_HELLO"        -> (m.psk => s.pskOffered)      \* RFC 8446 4.2.11
+  CASE m.type = "SERVER_HELLO"        -> (m.psk => (s.pskOffered /\ m.ok))      \* RFC 8446 4.2.11
     [] m.type = "CERTIFICATE_VERIFY"  -> m.ok                          \* 4.4.3
     [] m.type = "FINISHED"            -> m.ok                          \* 4.4.4
     [] m.type = "CERTIFICATE"         -> (s.role = "client" => ~m.empty)  \* 4.4.2
@@ -171,7 +174,7 @@ Flags(s, m, sel) ==
   [s EXCEPT
      !.transcript   = Append(@, m),
      !.pskOffered   = IF m.type = "CLIENT_HELLO" THEN m.psk /\ m.ok ELSE @,
-     !.pskSelected  = IF m.type = "SERVER_HELLO" THEN m.psk
+     !.pskSelected  = IF m.type = "SERVER_HELLO" THEN m.psk /\ m.ok
                       ELSE IF m.type = "CLIENT_HELLO" THEN sel ELSE @,
      !.certReq      = IF s.role = "client" /\ m.type = "CERTIFICATE_REQUEST" THEN TRUE ELSE @,
      !.certSeen     = @ \/ (m.type = "CERTIFICATE" /\ ~m.empty),
@@ -335,7 +338,7 @@ FlightAlphabets(role) ==
   IF role = "client" THEN {{"EE", "CR", "CERT", "CV", "FIN"}, {"EEearly", "CR", "CERT", "CV", "FIN"}}
   ELSE {{"CERT", "CERTempty", "CV", "FIN"}}
 Hellos(s) == IF s.role = "client"
-             THEN (IF s.pskOffered THEN {"SH", "SHpsk"} ELSE {"SH"})
+             THEN (IF s.pskOffered THEN {"SH", "SHpsk", "SHpskbad"} ELSE {"SH"})
              ELSE (IF s.tickets THEN {"CH", "CHpsk"} ELSE {"CH"})
 Scripts(s) == {<<h>> \o f : h \in Hellos(s),
                             f \in UNION {Flights(A) : A \in FlightAlphabets(s.role)}}
